@@ -70,6 +70,8 @@ def valid_case(case):
         return len(case['lists']) == 10 and all(len(l) >= 1 and (l == [''] or all(n != '' for n in l)) for l in case['lists'])
     if case.get('kind') == 'namelist':
         return len(case['names']) >= 1
+    if case.get('kind') == 'opseq':
+        return len(case['ops']) >= 1 and all(len(o) == 2 and (o[0] != 'list' or len(o[1]) >= 1) for o in case['ops'])
     return True
 
 
@@ -229,6 +231,62 @@ def _eval_case(case):
             if t != pl[0] or body != pl[1:]:
                 fails.append(['frame-seq-readback', 'lens %r seg %d: packet %d read back as type %r, %d bytes' % (lens, seg, j, t, len(body) if isinstance(body, bytes) else -1)])
                 break
+    elif k == 'opseq':
+        # a history of writes into one buffer, then the same history of reads: model = the list of values
+        ops = case['ops']
+        w = WriteBuf()
+        ref = b''
+        for t, v in ops:
+            if t == 'byte':
+                w.write_byte(v); ref += bytes([v])
+            elif t == 'bool':
+                w.write_bool(v); ref += b'\x01' if v else b'\x00'
+            elif t == 'int':
+                w.write_int(v); ref += struct.pack('>I', v)
+            elif t == 'string':
+                w.write_string(v.encode('latin-1')); ref += wire.sstr(v.encode('latin-1'))
+            elif t == 'text':
+                w.write_string(v); ref += wire.sstr(v.encode('utf-8'))
+            elif t == 'list':
+                w.write_list(v); ref += wire.namelist(v)
+            elif t == 'mpint2':
+                w.write_mpint2(int(v)); ref += wire.mpint(int(v))
+            elif t == 'mpint1':
+                w.write_mpint1(int(v)); ref += wire.mpint1(int(v))
+            elif t == 'raw':
+                w.write(v.encode('latin-1')); ref += v.encode('latin-1')
+        enc = w.write_flush()
+        nt = len(ops) >= 3
+        if enc != ref:
+            fails.append(['opseq-encode', 'ops %r: tool %s ref %s' % (ops[:6], enc.hex()[:80], ref.hex()[:80])])
+        if w.write_flush() != b'':
+            fails.append(['opseq-flush-not-empty', ''])
+        r = ReadBuf(ref)
+        for i, (t, v) in enumerate(ops):
+            if t == 'byte':
+                got, want = r.read_byte(), v
+            elif t == 'bool':
+                got, want = r.read_bool(), v
+            elif t == 'int':
+                got, want = r.read_int(), v
+            elif t == 'string':
+                got, want = r.read_string(), v.encode('latin-1')
+            elif t == 'text':
+                got, want = r.read_string(), v.encode('utf-8')
+            elif t == 'list':
+                got, want = r.read_list(), v
+            elif t == 'mpint2':
+                got, want = r.read_mpint2(), int(v)
+            elif t == 'mpint1':
+                got, want = r.read_mpint1(), int(v)
+            else:
+                got, want = r.read(len(v)), v.encode('latin-1')
+            if got != want:
+                fails.append(['opseq-decode:%s' % t, 'op %d of %r: %r != %r' % (i, [o[0] for o in ops], got if not isinstance(got, int) else str(got)[:60], want if not isinstance(want, int) else str(want)[:60])])
+                break
+        else:
+            if r.unread_len != 0:
+                fails.append(['opseq-leftover', '%d unread' % r.unread_len])
     elif k == 'frame_ref':
         # packets from the reference encoder (every legal padding) must be read back by the tool
         n, pad = case['len'], case['pad']
@@ -318,6 +376,15 @@ def strat_pkm():
                                   'sn': mod(1024).map(str), 'hn': st.one_of(mod(64), mod(2048)).map(str), 'se': st.integers(0, 2 ** 33), 'he': st.integers(0, 2 ** 33)})
 
 
+def strat_opseq():
+    big = st.one_of(st.integers(-2 ** 70, 2 ** 70), st.integers(-2 ** 600, 2 ** 600)).map(str)
+    op = st.one_of(
+        st.tuples(st.just('byte'), st.integers(0, 255)), st.tuples(st.just('bool'), st.booleans()), st.tuples(st.just('int'), st.one_of(st.sampled_from(WORDS), st.integers(0, 0xffffffff))),
+        st.tuples(st.just('string'), st.binary(max_size=40).map(lambda b: b.decode('latin-1'))), st.tuples(st.just('text'), st.text(max_size=12, alphabet=st.characters(blacklist_categories=('Cs',)))),
+        st.tuples(st.just('list'), list_st()), st.tuples(st.just('mpint2'), big), st.tuples(st.just('mpint1'), st.integers(0, 2 ** 300).map(str)), st.tuples(st.just('raw'), st.binary(max_size=9).map(lambda b: b.decode('latin-1'))))
+    return st.lists(op.map(list), min_size=1, max_size=12).map(lambda ops: {'kind': 'opseq', 'ops': ops})
+
+
 def strat_crc():
     return st.binary(max_size=200).map(lambda b: {'kind': 'crc', 'data': b.decode('latin-1')})
 
@@ -357,6 +424,7 @@ def run(ctx):
     ctx.hyp('strat_kexinit', 3000 * f, label=5)
     ctx.hyp('strat_pkm', 3000 * f, label=6)
     ctx.hyp('strat_crc', 3000 * f, label=7)
+    ctx.hyp('strat_opseq', 6000 * f, label=8)
     if not q:
         from vlib import fuzzrun
         fuzzrun.run_into(ctx, 'c10_roundtrip', runs=400000, shards=8)
